@@ -147,8 +147,12 @@ def check_size(kind, n, expr, limit=3):
 # ------------------------------------------------------------------ where the error is raised
 
 BAD = {"TYPE_NOT_SUPPORTED": ["set()", "b'x'", "object()", "1j", "range(3)", "(lambda: 1)", "DA", "int"],
-       "SEQUENCE_TOO_LONG": ["[1, 1, 1, 1, 1]", "(1, 1, 1, 1, 1)", "{'a': 1, 'b': 1, 'c': 1, 'd': 1, 'e': 1}"]}
-DICT_KEYS = ["'a'", "0", "True", "None", "1.5", "(1, 2)", "datetime.date(2020, 1, 2)", "datetime.time(3, 4)", "PurePosixPath('a')", "''", "10**5000",
+       "SEQUENCE_TOO_LONG": ["[1, 1, 1, 1, 1]", "(1, 1, 1, 1, 1)", "{'a': 1, 'b': 1, 'c': 1, 'd': 1, 'e': 1}",
+                             # too long AND holding supported values that are awkward to print (an error message must not choke on them)
+                             "[10**5000, 1, 1, 1, 1]", "(1, -10**5000, 1, 1, 1)", "{10**5000: 1, 'b': 1, 'c': 1, 'd': 1, 'e': 1}",
+                             "['\\ud800', 1, 1, 1, 1]", "{'a': 10**5000, 'b': '\\udfff', 'c': 1, 'd': 1, 'e': 1}",
+                             "[[10**5000], DA(1, 2), {}, None, 1.5]"]}
+DICT_KEYS = ["'a'", "0", "True", "None", "1.5", "(1, 2)", "(10**5000,)", "datetime.date(2020, 1, 2)", "datetime.time(3, 4)", "PurePosixPath('a')", "''", "10**5000",
              "datetime.datetime(2020, 1, 2, 3, 4, 5)", "-1", "'a.b'", "'[0]'"]
 
 
@@ -156,7 +160,7 @@ def position_wrappers(depth):
     """expressions with one hole: every position a value can occupy below `depth` containers"""
     one = ["[{}]", "[0, {}]", "({},)", "(0, 'a', {})", "DC({})", "DA(0, {})"]
     one += ["{{" + k + ": {}}}" for k in DICT_KEYS] + ["OrderedDict([(" + k + ", {})])" for k in DICT_KEYS[:6]]
-    out = list(one)
+    out = ["{}"] + list(one)   # "{}": the value itself (top level)
     if depth >= 2:
         out += [a.replace("{}", b) for a in one for b in one]
     return out
